@@ -53,7 +53,7 @@ SPEC = {
                      "paths meeting only at the root plus a non-tree edge with the recorded weight; FVS and ISO (root, edge) pairs must be Horton pairs; greedy by "
                      "weight with GF(2) independence over each collection must reach the dimension and the reference optimum. evaluations = builder calls; "
                      "distinct_nontrivial = distinct (graph, weighting) with cycle space dimension >= 1",
-                quick=[("degree threshold of the tree representation: stars with 65 540 - 131 080 leaves plus 3 - 40 chords {i, i+65536} (a tree root with more than 65535 children), unit weights, FVS builder, optimum 3 per chord by construction", [["--comp", "collections-hub", "--families", "hub:300:0,hub:65540:3,hub:70000:40,hub:131080:5", "--alpha", "U"]]), ("G(0..4) x A3", [["--n", n, "--alpha", "A3"] for n in range(0, 5)]), ("G(5) x A2", [["--n", 5, "--alpha", "A2"]]),
+                quick=[("graphs with 256..320 vertices (beyond the 64-bit edge masks; internal size thresholds of the builders): pseudo-random sparse graphs, 17x17 grid, 300-cycle, wheel with 300 spokes x patterns M3 and U, FVS and ISO builders: every candidate validated as an edge set, greedy over the collection against the independent Horton reference", [["--comp", "collections-big", "--families", "lcg:300:420:1,lcg:320:440:2,grid:17:17,lcg:260:600:3,cycle:300,wheel:300", "--alpha", a] for a in ("M3", "U")]), ("degree threshold of the tree representation: stars with 65 540 - 131 080 leaves plus 3 - 40 chords {i, i+65536} (a tree root with more than 65535 children), unit weights, FVS builder, optimum 3 per chord by construction", [["--comp", "collections-hub", "--families", "hub:300:0,hub:65540:3,hub:70000:40,hub:131080:5", "--alpha", "U"]]), ("G(0..4) x A3", [["--n", n, "--alpha", "A3"] for n in range(0, 5)]), ("G(5) x A2", [["--n", 5, "--alpha", "A2"]]),
                        ("G(4) x A3 plus one more component = a single edge weighing 2^60", [["--n", 4, "--alpha", "A3", "--plus-heavy-k2"]]),
                        ("weights with 26 significant bits: G(4) x B3, G(5) x B2", [["--n", 4, "--alpha", "B3"], ["--n", 5, "--alpha", "B2"]]),
                        ("pairwise distinct weights: G(4) x PM, G(5) with at most 6 edges x PM (all assignments of 1..m: distinct edges, tied paths) and x PM2 (no ties at all)",
